@@ -63,10 +63,15 @@ def recorded_hashes(a, fs, c):
     return out
 
 
-def gen_decoy(rng, n, c, taken):
-    """Random bytes none of whose blocks collides with a recorded block under the configured hash size."""
+def gen_decoy(rng, n, c, taken, orig=None):
+    """Random bytes none of whose blocks collides with a recorded block under the configured hash size. With orig, half of
+    the decoys are partial: they share some leading or trailing blocks with the original and differ elsewhere."""
     for _ in range(50):
         data = A.gen_bytes(rng, n, "rand")
+        nb = (n + c.blocksize - 1) // c.blocksize
+        if orig is not None and nb >= 2 and rng.random() < 0.5:
+            k = rng.randint(1, nb - 1) * c.blocksize
+            data = (orig[:k] + data[k:]) if rng.random() < 0.7 else (data[:k] + orig[k:])
         ok = True
         for i in range(0, max(n, 1), c.blocksize):
             blk = data[i:i + c.blocksize]
@@ -131,7 +136,7 @@ def run_case(case):
                 if not scen._clear_path(fs, d2, s2):
                     continue
                 true_copy = rng.random() < 0.3
-                data = e[1] if true_copy else gen_decoy(rng, len(e[1]), c0, taken)
+                data = e[1] if true_copy else gen_decoy(rng, len(e[1]), c0, taken, e[1])
                 if data == e[1] and not true_copy:
                     continue
                 fs.write(d2, s2, data, mtime_ns=e[2])
@@ -214,7 +219,7 @@ def run_case(case):
             for k, (d, s) in enumerate(victims):
                 e = fs.entries[d][s]
                 truth = rng.random() < 0.5
-                data = e[1] if truth else gen_decoy(rng, len(e[1]), c0, taken)
+                data = e[1] if truth else gen_decoy(rng, len(e[1]), c0, taken, e[1])
                 if mode == "import":
                     p = os.path.join(os.fsencode(imp), b"imp%d_" % k + s.split(b"/")[-1])
                     with open(p, "wb") as f:
